@@ -42,46 +42,12 @@ def plan(tier, seed):
     return [{'files': files[i::n]} for i in range(n)]
 
 
-class CountingFile(object):
-    """Delegating proxy around the listing's file object: the logical clock."""
-    def __init__(self, f, budget):
-        self.__dict__['_f'] = f
-        self.__dict__['budget'] = budget
-        self.__dict__['reads'] = 0
-        self.__dict__['empty_run'] = 0
-        self.__dict__['max_reads'] = 0
-
-    def reset(self):
-        self.__dict__['max_reads'] = max(self.max_reads, self.reads)
-        self.__dict__['reads'] = 0
-        self.__dict__['empty_run'] = 0
-
-    def readline(self, *a):
-        self.__dict__['reads'] += 1
-        line = self._f.readline(*a)
-        if not line:
-            self.__dict__['empty_run'] += 1
-            if self.empty_run > 1000:
-                raise StepBudgetExceeded('%d consecutive reads at end of file' % self.empty_run)
-        else:
-            self.__dict__['empty_run'] = 0
-        if self.reads > self.budget:
-            raise StepBudgetExceeded('%d readline calls, budget %d' % (self.reads, self.budget))
-        return line
-
-    def __getattr__(self, name):
-        return getattr(self._f, name)
-
-    def __setattr__(self, name, value):
-        setattr(self._f, name, value)
+from vf.clock import CountingFile, count_lines          # noqa: E402  (the logical clock is shared with C07)
 
 
 SPEC = {'element': 'e', 'connection': 'c', 'generation': 'g', 'primary': 'p', 'element1': 'e1', 'element2': 'e2'}
 
 
-def count_lines(path):
-    with open(path, 'rb') as f:
-        return sum(1 for _ in f)
 
 
 def own_fix(n):
